@@ -11,6 +11,8 @@ import (
 	"github.com/Eyevinn/mp4ff/mp4"
 	"io"
 	"log/slog"
+	"net/http"
+	"net/http/httptest"
 	"os"
 	"os/exec"
 	"path/filepath"
@@ -428,7 +430,105 @@ func c17Child(args []string) {
 	}
 }
 
+// c17Restart: a receiver restarted on a storage that already holds the channel (init_org files), with credentials
+// configured: the first request for every track carries wrong credentials and is refused, which must leave no trace —
+// the following proper uploads are accepted and stored, the tracks being registered from the stored init segments.
+func c17Restart(r *Rng, vInit, aInit []byte, viol func(kind, what string, ops []string, _ any), count func(string), setTag func(string)) {
+	dir, err := os.MkdirTemp(workDir(), "c17restart")
+	if err != nil {
+		return
+	}
+	defer os.RemoveAll(dir)
+	cfg := &recv.Config{DefaultUser: "user", DefaultPswd: "secret", Channels: []recv.ChannelConfig{}}
+	type trk struct {
+		name, ext string
+		init      []byte
+		src       string
+		ts        uint64
+	}
+	tracks := []trk{{"v0", ".cmfv", vInit, "testpic_2s/V300/%d.m4s", 90000}, {"a0", ".cmfa", aInit, "testpic_2s/A48/%d.m4s", 48000}}
+	seq0 := uint32(r.Pick(1, 101))
+	tag := fmt.Sprintf("# receiver restart with credentials: 2 tracks from %d, wrong credentials on the first request of every track after the restart", seq0)
+	setTag(tag)
+	put := func(h http.Handler, path string, body []byte, pswd string) int {
+		req := httptest.NewRequest("PUT", path, bytes.NewReader(body))
+		req.SetBasicAuth("user", pswd)
+		rec := httptest.NewRecorder()
+		func() {
+			defer func() { _ = recover() }()
+			h.ServeHTTP(rec, req)
+		}()
+		return rec.Code
+	}
+	seg := func(t trk, k int) []byte {
+		b, err := readAsset(fmt.Sprintf(t.src, k%4+1))
+		if err != nil {
+			return nil
+		}
+		f, err := mp4.DecodeFile(bytes.NewReader(b))
+		if err != nil {
+			return nil
+		}
+		fr := f.Segments[0].Fragments[0]
+		fr.Moof.Mfhd.SequenceNumber = seq0 + uint32(k)
+		dt := (uint64(seq0) + uint64(k)) * 2 * t.ts
+		if t.ts == 48000 {
+			dt = dt / 1024 * 1024
+		}
+		fr.Moof.Traf.Tfdt.SetBaseMediaDecodeTime(dt)
+		var buf bytes.Buffer
+		_ = f.Segments[0].Encode(&buf)
+		return buf.Bytes()
+	}
+	ctx1, cancel1 := context.WithCancel(context.Background())
+	h1, err := recv.VerifNewRouter(ctx1, dir, 30, 0, cfg, false)
+	if err != nil {
+		cancel1()
+		return
+	}
+	for _, t := range tracks {
+		put(h1, "/upload/ch/"+t.name+"/init"+t.ext, t.init, "secret")
+	}
+	for k := 0; k < 3; k++ {
+		for _, t := range tracks {
+			put(h1, fmt.Sprintf("/upload/ch/%s/%d%s", t.name, seq0+uint32(k), t.ext), seg(t, k), "secret")
+		}
+	}
+	time.Sleep(50 * time.Millisecond)
+	cancel1()
+	ctx2, cancel2 := context.WithCancel(context.Background())
+	defer cancel2()
+	h2, err := recv.VerifNewRouter(ctx2, dir, 30, 0, cfg, false)
+	if err != nil {
+		return
+	}
+	count("receiver-restart-runs")
+	for k := 3; k < 6; k++ {
+		for _, t := range tracks {
+			path := fmt.Sprintf("/upload/ch/%s/%d%s", t.name, seq0+uint32(k), t.ext)
+			if k == 3 {
+				if code := put(h2, path, seg(t, k), "wrong"); code != 401 {
+					viol("restart-auth", fmt.Sprintf("PUT %s with wrong credentials answered %d", path, code), []string{tag}, nil)
+					return
+				}
+			}
+			if code := put(h2, path, seg(t, k), "secret"); code != 200 {
+				viol("restart-upload", fmt.Sprintf("PUT %s with the right credentials answered %d after a refused request for the same track", path, code), []string{tag}, nil)
+				return
+			}
+			if _, err := os.Stat(filepath.Join(dir, "ch", t.name, fmt.Sprintf("%d%s", seq0+uint32(k), t.ext))); err != nil {
+				viol("restart-upload", fmt.Sprintf("PUT %s was answered 200 but the segment is not stored", path), []string{tag}, nil)
+				return
+			}
+		}
+	}
+}
+
 func c17StorageRun(r *Rng, it int, vInit, aInit []byte, viol func(kind, what string, ops []string, _ any), count func(string), setTag func(string)) {
+	if it%6 == 5 {
+		c17Restart(r, vInit, aInit, viol, count, setTag)
+		return
+	}
 	shifted := it%2 == 1
 	tsbd := uint64(r.Pick(4, 6, 10, 5, 7)) // also depths that are not a multiple of the 2 s segments
 	nSegs := r.Range(8, 16)
